@@ -1,11 +1,32 @@
 import Driver.MuxJudge
+import Driver.C12Judge
 /-! Judges for C05 (IP filter): `ipfilter` = the package-level decision (`New` / `Allow` against the
-model and `net.IPNet.Contains`), `C05` = the router with filters at the three levels. -/
+model and `net.IPNet.Contains`), `C05` = the router with filters at the three levels (cache off),
+`twin` = the cache-on half of the statement ("with or without the route cache and whatever requests
+preceded it"): C12's twin harness (the same request history against a cache-less and a cached
+instance), judged here only for what C05 says — the *denial decision* (403 or not) for every request
+of the history must be the same with the cache as without it; by `denied_never_handled` /
+`undenied_same_as_unfiltered` the cache-less decision is the property's. Non-IP cache divergences are
+C12's business and are not reported under C05. -/
 open Lean Driver
 
 namespace Driver.C05
 
-def judges : List (String × Judge) := [("C05", MuxJudge.judge true), ("ipfilter", MuxJudge.ipfJudge)]
+def twinJudge : Judge := fun input obs =>
+  let v := Driver.C12.judge input obs
+  let u := Driver.C12.parseObsList obs "uncached"
+  let c := Driver.C12.parseObsList obs "cached"
+  let sameDenial := u.length == c.length &&
+    (List.zipWith (fun a b => (a.status == 403) == (b.status == 403)) u c).all id
+  let hasDenial := u.any (fun a => a.status == 403)
+  if (obsPanic obs).isSome then v else
+  { v with spec := sameDenial,
+           sig := if sameDenial then "" else "ipcache:" ++ v.sig,
+           tags := v.tags ++ (if hasDenial then ["denied-request-in-history"] else []),
+           nontrivial := v.nontrivial && hasDenial }
+
+def judges : List (String × Judge) :=
+  [("C05", MuxJudge.judge true), ("ipfilter", MuxJudge.ipfJudge), ("twin", twinJudge)]
 
 end Driver.C05
 
